@@ -99,4 +99,63 @@ theorem toppedUp_inj_of_length_eq {a b : List Bool} (hl : a.length = b.length) (
   · exact h2
   · exact (List.append_inj h2 hl).1
 
+theorem bitsToBytes_length' (l : List Bool) : (bitsToBytes l).length = (l.length + 7) / 8 := by
+  have h := congrArg List.length (bytesToBits_bitsToBytes l)
+  simp only [bytesToBits_length, List.length_append, List.length_replicate, padLen] at h
+  omega
+
+theorem toppedUp_length (l : List Bool) : (toppedUp l).length = (l.length + 7) / 8 := by
+  unfold toppedUp addTag
+  rw [bitsToBytes_length']
+  split
+  · rfl
+  · simp only [List.length_append, List.length_cons, List.length_replicate]; omega
+
+/-- a bit list followed by the tag bit and zeros determines the bit list -/
+theorem append_tag_inj : ∀ (a b : Nat) (l l' : List Bool),
+    l ++ true :: List.replicate a false = l' ++ true :: List.replicate b false → l = l' := by
+  intro a b l l' h
+  have hr := congrArg List.reverse h
+  simp only [List.reverse_append, List.reverse_cons, List.reverse_replicate, List.append_assoc, List.singleton_append] at hr
+  -- replicate a false ++ true :: l.reverse = replicate b false ++ true :: l'.reverse
+  have key : ∀ (a b : Nat) (x y : List Bool),
+      List.replicate a false ++ true :: x = List.replicate b false ++ true :: y → x = y := by
+    intro a
+    induction a with
+    | zero =>
+      intro b x y h
+      cases b with
+      | zero => simpa using h
+      | succ b => simp [List.replicate_succ] at h
+    | succ a ih =>
+      intro b x y h
+      cases b with
+      | zero => simp [List.replicate_succ] at h
+      | succ b =>
+        simp only [List.replicate_succ, List.cons_append, List.cons.injEq, true_and] at h
+        exact ih b x y h
+  have := key a b _ _ hr
+  have h2 := congrArg List.reverse this
+  simpa using h2
+
+/-- bit lists (of any lengths) with the same second descriptor byte and the same tagged bytes are equal -/
+theorem toppedUp_inj {a b : List Bool} (ha : a.length ≤ 1023) (hb : b.length ≤ 1023)
+    (hd : (a.length + 7) / 8 + a.length / 8 = (b.length + 7) / 8 + b.length / 8) (h : toppedUp a = toppedUp b) : a = b := by
+  by_cases hal : a.length % 8 = 0
+  · have hbl : b.length % 8 = 0 := by omega
+    have : a.length = b.length := by omega
+    exact toppedUp_inj_of_length_eq this h
+  · have hbl : ¬ b.length % 8 = 0 := by omega
+    unfold toppedUp addTag at h
+    simp only [hal, hbl, ↓reduceIte] at h
+    have h2 := congrArg bytesToBits h
+    rw [bytesToBits_bitsToBytes, bytesToBits_bitsToBytes] at h2
+    -- both sides: bits ++ true :: zeros ++ padding zeros
+    have e : ∀ (l : List Bool) (k p : Nat), (l ++ true :: List.replicate k false) ++ List.replicate p false =
+        l ++ true :: List.replicate (k + p) false := by
+      intro l k p
+      rw [List.append_assoc, List.cons_append, ← List.replicate_append_replicate]
+    rw [e, e] at h2
+    exact append_tag_inj _ _ _ _ h2
+
 end Tongo.Bits
